@@ -60,6 +60,10 @@ Proof.
   - apply ex_len; auto.
   - apply ex_append_own; auto.
   - apply ex_printf_self; auto.
+  - apply ex_eq_lit; auto.
+  - apply ex_split_set; auto.
+  - apply ex_from_printf; auto.
+  - apply ex_stat; auto.
 Qed.
 
 Lemma step_refines w o : Inv w ->
@@ -228,6 +232,29 @@ Proof.
   intros w o w' r I E. destruct (step_ok_refines w o w' r I E) as (_ & A & _).
   destruct (spec_regs (abs w) o) as (ext & X). exists ext.
   change (regs w') with (sregs (abs w')). rewrite A, X. reflexivity.
+Qed.
+
+(* over whole histories: a foreign buffer, once registered, has the same bytes after any continuation *)
+Lemma run_regs_kept : forall ops w w' outs, Inv w -> run w ops = Ok (w', outs) ->
+  forall r, r < length (regs w) -> nth_error (regs w') r = nth_error (regs w) r.
+Proof.
+  induction ops as [|o rest IH]; intros w w' outs I H r Hr; cbn [run] in H.
+  - injection H as <- _. reflexivity.
+  - destruct (step w o) as [[w1 r1]|e] eqn:E; cbn [bind fst snd] in H; [|discriminate].
+    destruct (run w1 rest) as [[w2 rs]|e] eqn:E2; cbn [bind fst snd] in H; [|discriminate].
+    injection H as <- _.
+    destruct (step_ok_refines w o w1 r1 I E) as (I1 & _).
+    destruct (foreign_memory_unchanged_thm w o w1 r1 I E) as (ext & X).
+    rewrite (IH w1 w2 rs I1 E2 r) by (rewrite X, app_length; lia).
+    rewrite X. apply nth_error_app1. exact Hr.
+Qed.
+
+Theorem foreign_memory_kept_thm : forall ops1 ops2 w1 outs1 w2 outs2,
+  run winit ops1 = Ok (w1, outs1) -> run w1 ops2 = Ok (w2, outs2) ->
+  forall r, r < length (regs w1) -> nth_error (regs w2) r = nth_error (regs w1) r.
+Proof.
+  intros ops1 ops2 w1 outs1 w2 outs2 H1 H2.
+  apply (run_regs_kept ops2 w1 w2 outs2); auto. eapply reachable_inv_thm; eauto.
 Qed.
 
 (* ---- the C-string view ---- *)
